@@ -80,15 +80,25 @@ Proof.
 Qed.
 
 
+(* ======================================================================================
+   Main development: the caller's `equals` is (the boolean of) an EQUIVALENCE on values.
+   The search looks at values only through `equals`; "change", "never returns" and the
+   specification list are all stated modulo that equivalence.  Reported values are the
+   values found at the reported levels (get l), not representatives.
+   ====================================================================================== *)
 Section Proofs.
   Context {V : Type}.
   Variable eqb : V -> V -> bool.
-  Hypothesis eqb_spec : forall a b, eqb a b = true <-> a = b.
+  Hypothesis eqb_refl : forall a, eqb a a = true.
+  Hypothesis eqb_sym : forall a b, eqb a b = true -> eqb b a = true.
+  Hypothesis eqb_trans : forall a b c, eqb a b = true -> eqb b c = true -> eqb a c = true.
   Variable get : Z -> V.
 
-  (* a value never returns: if levels a < c carry the same value, so does everything between *)
+  Notation "a ~~ b" := (eqb a b = true) (at level 70).
+
+  (* a value never returns (modulo equals): if levels a < c carry equivalent values, so does everything between *)
   Definition no_return (lo hi : Z) : Prop :=
-    forall a b c, lo <= a -> a < b -> b < c -> c <= hi -> get a = get c -> get b = get a.
+    forall a b c, lo <= a -> a < b -> b < c -> c <= hi -> get a ~~ get c -> get b ~~ get a.
 
   (* ---- specification: the change points in (lo, hi], lowest first ---- *)
   Fixpoint changes_up (n : nat) (lo : Z) : list (Z * V) :=
@@ -98,30 +108,36 @@ Section Proofs.
     end.
   Definition changes (lo hi : Z) : list (Z * V) := changes_up (Z.to_nat (hi - lo)) lo.
 
-  Lemma eqb_false a b : eqb a b = false <-> a <> b.
+  Lemma eqb_sym_false a b : eqb a b = false -> eqb b a = false.
+  Proof. intro H. destruct (eqb b a) eqn:E; [|reflexivity]. apply eqb_sym in E. congruence. Qed.
+
+  (* a ~ b, b ~ c, but a !~ c is impossible, in the forms used below *)
+  Lemma eqb_false_l a b c : a ~~ b -> eqb b c = false -> eqb a c = false.
   Proof.
-    split.
-    - intros H E. apply eqb_spec in E. congruence.
-    - intros H. destruct (eqb a b) eqn:E; [|reflexivity]. apply eqb_spec in E. contradiction.
+    intros H1 H2. destruct (eqb a c) eqn:E; [|reflexivity].
+    rewrite (eqb_trans b a c (eqb_sym _ _ H1) E) in H2. discriminate.
   Qed.
 
-  Lemma eqb_refl a : eqb a a = true.
-  Proof. now apply eqb_spec. Qed.
+  Lemma eqb_false_r a b c : eqb a b = false -> b ~~ c -> eqb a c = false.
+  Proof.
+    intros H1 H2. destruct (eqb a c) eqn:E; [|reflexivity].
+    rewrite (eqb_trans a c b E (eqb_sym _ _ H2)) in H1. discriminate.
+  Qed.
 
   Lemma changes_up_in : forall n lo l v,
-    In (l, v) (changes_up n lo) <-> lo < l <= lo + Z.of_nat n /\ v = get l /\ get l <> get (l - 1).
+    In (l, v) (changes_up n lo) <-> lo < l <= lo + Z.of_nat n /\ v = get l /\ eqb (get l) (get (l - 1)) = false.
   Proof.
     induction n as [|k IH]; intros lo l v.
     - cbn. split; [contradiction | lia].
     - cbn [changes_up]. rewrite in_app_iff, IH.
       destruct (eqb (get (lo + 1)) (get lo)) eqn:E.
-      + apply eqb_spec in E. split.
+      + split.
         * intros [[] | (H1 & H2 & H3)]. split; [lia | now split].
         * intros (H1 & H2 & H3). right. split; [|now split].
           assert (l <> lo + 1).
-          { intros ->. apply H3. replace (lo + 1 - 1) with lo by lia. exact E. }
+          { intros ->. replace (lo + 1 - 1) with lo in H3 by lia. congruence. }
           lia.
-      + apply eqb_false in E. split.
+      + split.
         * intros [[H | []] | (H1 & H2 & H3)].
           -- injection H as <- <-. split; [lia|]. split; [reflexivity|].
              replace (lo + 1 - 1) with lo by lia. exact E.
@@ -131,9 +147,9 @@ Section Proofs.
           -- right. split; [lia | now split].
   Qed.
 
-  (* exactly the levels of (lo, hi] whose value differs from the level below, with the new value *)
+  (* exactly the levels of (lo, hi] whose value is not equivalent to the one below, with the value found there *)
   Lemma changes_in lo hi l v : lo <= hi ->
-    (In (l, v) (changes lo hi) <-> lo < l <= hi /\ v = get l /\ get l <> get (l - 1)).
+    (In (l, v) (changes lo hi) <-> lo < l <= hi /\ v = get l /\ eqb (get l) (get (l - 1)) = false).
   Proof.
     intro H. unfold changes. rewrite changes_up_in. rewrite Z2Nat.id by lia.
     replace (lo + (hi - lo)) with hi by lia. reflexivity.
@@ -171,17 +187,17 @@ Section Proofs.
   Qed.
 
   Lemma changes_up_const : forall n lo,
-    (forall m, lo <= m <= lo + Z.of_nat n -> get m = get lo) -> changes_up n lo = [].
+    (forall m, lo <= m <= lo + Z.of_nat n -> get m ~~ get lo) -> changes_up n lo = [].
   Proof.
     induction n as [|k IH]; intros lo H; [reflexivity|].
     cbn [changes_up].
-    assert (E : get (lo + 1) = get lo) by (apply H; lia).
-    rewrite (proj2 (eqb_spec _ _) E). cbn [app]. apply IH.
-    intros m Hm. rewrite E. apply H. lia.
+    assert (E : get (lo + 1) ~~ get lo) by (apply H; lia).
+    rewrite E. cbn [app]. apply IH.
+    intros m Hm. apply (eqb_trans _ (get lo)); [apply H; lia | now apply eqb_sym].
   Qed.
 
   Lemma changes_const lo hi :
-    (forall m, lo <= m <= hi -> get m = get lo) -> changes lo hi = [].
+    (forall m, lo <= m <= hi -> get m ~~ get lo) -> changes lo hi = [].
   Proof.
     intro H. unfold changes. destruct (Z_le_gt_dec lo hi) as [Hle | Hgt].
     - apply changes_up_const. intros m Hm. apply H. lia.
@@ -191,11 +207,10 @@ Section Proofs.
   Lemma changes_nil lo : changes lo lo = [].
   Proof. unfold changes. now rewrite Z.sub_diag. Qed.
 
-  Lemma changes_one l : get l <> get (l - 1) -> changes (l - 1) l = [(l, get l)].
+  Lemma changes_one l : eqb (get l) (get (l - 1)) = false -> changes (l - 1) l = [(l, get l)].
   Proof.
     intro H. unfold changes. replace (l - (l - 1)) with 1 by lia. change (Z.to_nat 1) with 1%nat.
-    cbn [changes_up]. replace (l - 1 + 1) with l by lia.
-    apply eqb_false in H. now rewrite H.
+    cbn [changes_up]. replace (l - 1 + 1) with l by lia. now rewrite H.
   Qed.
 
   (* ---- consequences of no_return ---- *)
@@ -203,20 +218,20 @@ Section Proofs.
   Proof. intros H H1 H2 a b c Ha Hab Hbc Hc. apply H; lia. Qed.
 
   Lemma const_between lo hi a b : no_return lo hi -> lo <= a -> a <= b -> b <= hi ->
-    get a = get b -> forall m, a <= m <= b -> get m = get a.
+    get a ~~ get b -> forall m, a <= m <= b -> get m ~~ get a.
   Proof.
     intros H Ha Hab Hb E m Hm.
-    destruct (Z.eq_dec m a) as [-> | Hma]; [reflexivity|].
-    destruct (Z.eq_dec m b) as [-> | Hmb]; [now symmetry|].
+    destruct (Z.eq_dec m a) as [-> | Hma]; [apply eqb_refl|].
+    destruct (Z.eq_dec m b) as [-> | Hmb]; [now apply eqb_sym|].
     apply (H a m b); try lia. exact E.
   Qed.
 
   (* ---- bisection ---- *)
-  (* invariant get start = pred, get end <> pred; needs no hypothesis on the history *)
+  (* invariant get start ~ pred, get end !~ pred; needs no hypothesis on the history *)
   Lemma bisect_inv (pred : V) : forall fuel start end_,
-    start < end_ -> end_ - start <= Z.of_nat fuel -> get start = pred -> get end_ <> pred ->
+    start < end_ -> end_ - start <= Z.of_nat fuel -> get start ~~ pred -> eqb (get end_) pred = false ->
     exists l, bisect eqb get fuel pred start end_ = Some (l, get l) /\
-              start < l <= end_ /\ get (l - 1) = pred /\ get l <> pred.
+              start < l <= end_ /\ get (l - 1) ~~ pred /\ eqb (get l) pred = false.
   Proof.
     induction fuel as [|fuel IH]; intros start end_ Hlt Hf Hs He.
     - cbn in Hf. lia.
@@ -226,62 +241,67 @@ Section Proofs.
       + apply Z.eqb_neq in E.
         assert (Hlv : start < (end_ + start) / 2 < end_) by lia.
         destruct (eqb (get ((end_ + start) / 2)) pred) eqn:Ev.
-        * apply eqb_spec in Ev.
-          destruct (IH ((end_ + start) / 2) end_) as (l & H1 & H2 & H3 & H4); try lia; auto.
+        * destruct (IH ((end_ + start) / 2) end_) as (l & H1 & H2 & H3 & H4); try lia; auto.
           exists l. split; [exact H1|]. split; [lia | now split].
-        * apply eqb_false in Ev.
-          destruct (IH start ((end_ + start) / 2)) as (l & H1 & H2 & H3 & H4); try lia; auto.
+        * destruct (IH start ((end_ + start) / 2)) as (l & H1 & H2 & H3 & H4); try lia; auto.
           exists l. split; [exact H1|]. split; [lia | now split].
   Qed.
 
   Lemma find_state_change_a_change (pred : V) start end_ :
-    start < end_ -> get start = pred -> get end_ <> pred ->
+    start < end_ -> get start ~~ pred -> eqb (get end_) pred = false ->
     exists l, find_state_change eqb get end_ start pred = Some (l, get l) /\
-              start < l <= end_ /\ get (l - 1) = pred /\ get l <> pred.
+              start < l <= end_ /\ get (l - 1) ~~ pred /\ eqb (get l) pred = false.
   Proof.
     intros Hlt Hs He. unfold find_state_change. apply bisect_inv; auto. lia.
   Qed.
 
   Lemma find_state_change_first (pred : V) start end_ :
-    start < end_ -> get start = pred -> get end_ <> pred -> no_return start end_ ->
+    start < end_ -> get start ~~ pred -> eqb (get end_) pred = false -> no_return start end_ ->
     exists l, find_state_change eqb get end_ start pred = Some (l, get l) /\
-              start < l <= end_ /\ get l <> pred /\ forall m, start <= m < l -> get m = pred.
+              start < l <= end_ /\ eqb (get l) pred = false /\ forall m, start <= m < l -> get m ~~ pred.
   Proof.
     intros Hlt Hs He Hnr.
     destruct (find_state_change_a_change pred start end_ Hlt Hs He) as (l & H1 & H2 & H3 & H4).
     exists l. split; [exact H1|]. split; [exact H2|]. split; [exact H4|].
-    intros m Hm. rewrite <- Hs.
-    apply (const_between start end_ start (l - 1)); try lia; auto. congruence.
+    intros m Hm. apply (eqb_trans _ (get start)); [|exact Hs].
+    apply (const_between start end_ start (l - 1)); try lia; auto.
+    apply (eqb_trans _ pred); [exact Hs | now apply eqb_sym].
   Qed.
 
-  (* ---- walking one interval ---- *)
-  Lemma walk_correct : forall fuel head level,
+  (* ---- walking one interval; the head value handed over by the interval finder is only
+     equivalent to get head (it is the value of an earlier, higher sample) ---- *)
+  Lemma walk_correct : forall fuel head hv level,
+    hv ~~ get head ->
     level <= head -> head - level <= Z.of_nat fuel -> no_return level head ->
-    walk eqb get fuel head (get head) level (get level) = Some (changes level head).
+    walk eqb get fuel head hv level (get level) = Some (changes level head).
   Proof.
-    induction fuel as [|fuel IH]; intros head level Hle Hf Hnr.
-    - assert (level = head) by lia. subst level. cbn [walk]. now rewrite eqb_refl, changes_nil.
-    - cbn [walk]. destruct (eqb (get level) (get head)) eqn:E.
-      + apply eqb_spec in E. f_equal. symmetry. apply changes_const.
-        apply (const_between level head level head); auto; lia.
-      + apply eqb_false in E.
+    induction fuel as [|fuel IH]; intros head hv level Hhv Hle Hf Hnr.
+    - assert (level = head) by lia. subst level. cbn [walk].
+      rewrite (eqb_sym _ _ Hhv). now rewrite changes_nil.
+    - cbn [walk]. destruct (eqb (get level) hv) eqn:E.
+      + f_equal. symmetry. apply changes_const.
+        apply (const_between level head level head); auto; try lia.
+        now apply (eqb_trans _ hv).
+      + assert (E' : eqb (get head) (get level) = false).
+        { apply eqb_sym_false. apply (eqb_false_r _ hv); assumption. }
         assert (Hlt : level < head).
-        { destruct (Z.eq_dec level head) as [-> | Hne]; [congruence | lia]. }
-        destruct (find_state_change_first (get level) level head Hlt eq_refl (not_eq_sym E) Hnr)
+        { destruct (Z.eq_dec level head) as [-> | Hne]; [rewrite eqb_refl in E'; discriminate | lia]. }
+        destruct (find_state_change_first (get level) level head Hlt (eqb_refl _) E' Hnr)
           as (l & H1 & H2 & H3 & H4).
-        rewrite H1. rewrite (IH head l); try lia.
+        rewrite H1. rewrite (IH head hv l); try lia; auto.
         * f_equal.
           rewrite (changes_split level (l - 1) head) by lia.
           rewrite (changes_split (l - 1) l head) by lia.
           rewrite (changes_const level (l - 1)) by (intros m Hm; apply H4; lia).
           rewrite changes_one; [reflexivity|].
-          rewrite (H4 (l - 1)) by lia. exact H3.
+          apply (eqb_false_r _ (get level)); [exact H3|].
+          apply eqb_sym. apply H4. lia.
         * apply (no_return_sub level head); auto; lia.
   Qed.
 
-  Lemma walk_interval_correct lo hi : lo <= hi -> no_return lo hi ->
-    walk_state_change_interval eqb get hi lo (get hi) (get lo) = Some (changes lo hi).
-  Proof. intros H Hnr. unfold walk_state_change_interval. apply walk_correct; auto. lia. Qed.
+  Lemma walk_interval_correct lo hi hv : hv ~~ get hi -> lo <= hi -> no_return lo hi ->
+    walk_state_change_interval eqb get hi lo hv (get lo) = Some (changes lo hi).
+  Proof. intros Hhv H Hnr. unfold walk_state_change_interval. apply walk_correct; auto. lia. Qed.
 
   Lemma walk_all_app a b :
     walk_all eqb get (a ++ b) =
@@ -295,25 +315,26 @@ Section Proofs.
       now rewrite app_assoc.
   Qed.
 
-  (* ---- the interval finder over ANY strictly descending list of sampled levels ---- *)
-  Lemma intervals_correct : forall levels sl,
-    desc sl levels -> no_return (bottom sl levels) sl ->
-    walk_all eqb get (rev (intervals_loop eqb get levels sl (get sl))) = Some (changes (bottom sl levels) sl).
+  (* ---- the interval finder over ANY strictly descending list of sampled levels; the loop
+     keeps the succ_value of the last CHANGE, which is only equivalent to get succ_level ---- *)
+  Lemma intervals_correct : forall levels sl sv,
+    sv ~~ get sl -> desc sl levels -> no_return (bottom sl levels) sl ->
+    walk_all eqb get (rev (intervals_loop eqb get levels sl sv)) = Some (changes (bottom sl levels) sl).
   Proof.
-    induction levels as [|level rest IH]; intros sl Hd Hnr.
+    induction levels as [|level rest IH]; intros sl sv Hsv Hd Hnr.
     - cbn. now rewrite changes_nil.
     - destruct Hd as [Hlt Hd]. cbn [intervals_loop bottom] in *.
       pose proof (desc_bottom_le _ _ Hd) as Hb.
-      destruct (eqb (get level) (get sl)) eqn:E.
-      + apply eqb_spec in E. rewrite <- E. rewrite IH; auto.
-        * f_equal. rewrite (changes_split (bottom level rest) level sl) by lia.
-          rewrite (changes_const level sl); [now rewrite app_nil_r|].
-          apply (const_between (bottom level rest) sl level sl); auto; lia.
-        * apply (no_return_sub _ _ _ _ Hnr); lia.
-      + cbn [rev]. rewrite walk_all_app. rewrite IH; auto.
-        * cbn [walk_all]. rewrite walk_interval_correct; try lia.
-          -- rewrite app_nil_r. f_equal. symmetry. apply changes_split; lia.
-          -- apply (no_return_sub _ _ _ _ Hnr); lia.
+      assert (Hnr' : no_return (bottom level rest) level) by (apply (no_return_sub _ _ _ _ Hnr); lia).
+      destruct (eqb (get level) sv) eqn:E.
+      + rewrite (IH level sv (eqb_sym _ _ E) Hd Hnr'). f_equal.
+        rewrite (changes_split (bottom level rest) level sl) by lia.
+        rewrite (changes_const level sl); [now rewrite app_nil_r|].
+        apply (const_between (bottom level rest) sl level sl); auto; try lia.
+        now apply (eqb_trans _ sv).
+      + cbn [rev]. rewrite walk_all_app, (IH level (get level) (eqb_refl _) Hd Hnr').
+        cbn [walk_all]. rewrite (walk_interval_correct level sl sv Hsv); try lia.
+        * rewrite app_nil_r. f_equal. symmetry. apply changes_split; lia.
         * apply (no_return_sub _ _ _ _ Hnr); lia.
   Qed.
 
@@ -325,10 +346,11 @@ Section Proofs.
     destruct (sample_levels_props head last step Hs Hle) as [Hd Hb].
     rewrite intervals_correct; auto; rewrite Hb; auto.
   Qed.
+
   (* ---- without any hypothesis on the history: termination and soundness ----
      every reported pair is a genuine change point of the range, levels strictly increase *)
   Definition genuine (lo hi : Z) (r : list (Z * V)) : Prop :=
-    (forall l v, In (l, v) r -> lo < l <= hi /\ v = get l /\ get l <> get (l - 1)) /\
+    (forall l v, In (l, v) r -> lo < l <= hi /\ v = get l /\ eqb (get l) (get (l - 1)) = false) /\
     StronglySorted Z.lt (map fst r).
 
   Lemma sorted_app (a b : list Z) : StronglySorted Z.lt a -> StronglySorted Z.lt b ->
@@ -364,44 +386,47 @@ Section Proofs.
   Lemma genuine_nil lo hi : genuine lo hi [].
   Proof. split; [intros l v [] | constructor]. Qed.
 
-  Lemma walk_sound : forall fuel head level,
-    level <= head -> head - level <= Z.of_nat fuel ->
-    exists r, walk eqb get fuel head (get head) level (get level) = Some r /\ genuine level head r.
+  Lemma walk_sound : forall fuel head hv level,
+    hv ~~ get head -> level <= head -> head - level <= Z.of_nat fuel ->
+    exists r, walk eqb get fuel head hv level (get level) = Some r /\ genuine level head r.
   Proof.
-    induction fuel as [|fuel IH]; intros head level Hle Hf.
-    - assert (level = head) by lia. subst level. cbn [walk]. rewrite eqb_refl.
+    induction fuel as [|fuel IH]; intros head hv level Hhv Hle Hf.
+    - assert (level = head) by lia. subst level. cbn [walk]. rewrite (eqb_sym _ _ Hhv).
       exists []. split; [reflexivity | apply genuine_nil].
-    - cbn [walk]. destruct (eqb (get level) (get head)) eqn:E.
+    - cbn [walk]. destruct (eqb (get level) hv) eqn:E.
       + exists []. split; [reflexivity | apply genuine_nil].
-      + apply eqb_false in E.
+      + assert (E' : eqb (get head) (get level) = false).
+        { apply eqb_sym_false. apply (eqb_false_r _ hv); assumption. }
         assert (Hlt : level < head).
-        { destruct (Z.eq_dec level head) as [-> | Hne]; [congruence | lia]. }
-        destruct (find_state_change_a_change (get level) level head Hlt eq_refl (not_eq_sym E))
+        { destruct (Z.eq_dec level head) as [-> | Hne]; [rewrite eqb_refl in E'; discriminate | lia]. }
+        destruct (find_state_change_a_change (get level) level head Hlt (eqb_refl _) E')
           as (l & H1 & H2 & H3 & H4).
-        destruct (IH head l) as (r & Hr & Hg); try lia.
+        destruct (IH head hv l) as (r & Hr & Hg); try lia; auto.
         rewrite H1, Hr. exists ((l, get l) :: r). split; [reflexivity|].
         change ((l, get l) :: r) with ([(l, get l)] ++ r).
         apply (genuine_app level l head); try lia; [|exact Hg].
         split.
         * intros l' v' [HIn | []]. injection HIn as <- <-.
-          split; [lia|]. split; [reflexivity|]. rewrite H3. exact H4.
+          split; [lia|]. split; [reflexivity|].
+          apply (eqb_false_r _ (get level)); [exact H4 | now apply eqb_sym].
         * cbn. constructor; constructor.
   Qed.
 
-  Lemma intervals_sound : forall levels sl, desc sl levels ->
-    exists r, walk_all eqb get (rev (intervals_loop eqb get levels sl (get sl))) = Some r /\
+  Lemma intervals_sound : forall levels sl sv, sv ~~ get sl -> desc sl levels ->
+    exists r, walk_all eqb get (rev (intervals_loop eqb get levels sl sv)) = Some r /\
               genuine (bottom sl levels) sl r.
   Proof.
-    induction levels as [|level rest IH]; intros sl Hd.
+    induction levels as [|level rest IH]; intros sl sv Hsv Hd.
     - exists []. split; [reflexivity | apply genuine_nil].
     - destruct Hd as [Hlt Hd]. cbn [intervals_loop bottom].
       pose proof (desc_bottom_le _ _ Hd) as Hb.
-      destruct (IH level Hd) as (r1 & Hr1 & Hg1).
-      destruct (eqb (get level) (get sl)) eqn:E.
-      + apply eqb_spec in E. rewrite <- E. exists r1. split; [exact Hr1|].
+      destruct (eqb (get level) sv) eqn:E.
+      + destruct (IH level sv (eqb_sym _ _ E) Hd) as (r1 & Hr1 & Hg1).
+        exists r1. split; [exact Hr1|].
         apply (genuine_weaken _ _ _ _ _ Hg1); lia.
-      + cbn [rev]. rewrite walk_all_app, Hr1. cbn [walk_all].
-        destruct (walk_sound (Z.to_nat (sl - level)) sl level) as (r2 & Hr2 & Hg2); try lia.
+      + destruct (IH level (get level) (eqb_refl _) Hd) as (r1 & Hr1 & Hg1).
+        cbn [rev]. rewrite walk_all_app, Hr1. cbn [walk_all].
+        destruct (walk_sound (Z.to_nat (sl - level)) sl sv level Hsv) as (r2 & Hr2 & Hg2); try lia.
         unfold walk_state_change_interval. rewrite Hr2. exists (r1 ++ r2 ++ []). split; [reflexivity|].
         rewrite app_nil_r. apply (genuine_app _ level _); auto; lia.
   Qed.
@@ -411,7 +436,91 @@ Section Proofs.
   Proof.
     intros Hs Hle. unfold find_state_changes, find_state_change_intervals.
     destruct (sample_levels_props head last step Hs Hle) as [Hd Hb].
-    destruct (intervals_sound _ _ Hd) as (r & Hr & Hg). exists r. split; [exact Hr|].
+    destruct (intervals_sound _ head (get head) (eqb_refl _) Hd) as (r & Hr & Hg). exists r. split; [exact Hr|].
     now rewrite Hb in Hg.
   Qed.
 End Proofs.
+
+(* ======================================================================================
+   Corollaries for an `equals` that decides equality (the callers of pytezos pass ==):
+   the statements in terms of = and <>.
+   ====================================================================================== *)
+Section Equality.
+  Context {V : Type}.
+  Variable eqb : V -> V -> bool.
+  Hypothesis eqb_spec : forall a b, eqb a b = true <-> a = b.
+  Variable get : Z -> V.
+
+  Definition no_return_eq (lo hi : Z) : Prop :=
+    forall a b c, lo <= a -> a < b -> b < c -> c <= hi -> get a = get c -> get b = get a.
+
+  Lemma eq_refl' a : eqb a a = true. Proof. now apply eqb_spec. Qed.
+  Lemma eq_sym' a b : eqb a b = true -> eqb b a = true.
+  Proof. intro H. apply eqb_spec in H. apply eqb_spec. congruence. Qed.
+  Lemma eq_trans' a b c : eqb a b = true -> eqb b c = true -> eqb a c = true.
+  Proof. intros H1 H2. apply eqb_spec in H1. apply eqb_spec in H2. apply eqb_spec. congruence. Qed.
+
+  Lemma eqb_false_iff a b : eqb a b = false <-> a <> b.
+  Proof.
+    split.
+    - intros H E. apply eqb_spec in E. congruence.
+    - intros H. destruct (eqb a b) eqn:E; [|reflexivity]. apply eqb_spec in E. contradiction.
+  Qed.
+
+  Lemma no_return_eq_iff lo hi : no_return_eq lo hi <-> no_return eqb get lo hi.
+  Proof.
+    split; intros H a b c Ha Hab Hbc Hc E.
+    - apply eqb_spec. apply (H a b c); auto. now apply eqb_spec.
+    - apply eqb_spec. apply (H a b c); auto. now apply eqb_spec.
+  Qed.
+
+  Lemma changes_in_eq lo hi l v : lo <= hi ->
+    (In (l, v) (changes eqb get lo hi) <-> lo < l <= hi /\ v = get l /\ get l <> get (l - 1)).
+  Proof. intro H. rewrite (changes_in eqb eq_refl' eq_sym' eq_trans' get lo hi l v H), eqb_false_iff. reflexivity. Qed.
+
+  Lemma find_state_changes_exact_eq head last step : 1 <= step -> last <= head -> no_return_eq last head ->
+    find_state_changes eqb get head last step = Some (changes eqb get last head).
+  Proof.
+    intros Hs Hle Hnr. apply (find_state_changes_exact eqb eq_refl' eq_sym' eq_trans'); auto.
+    now apply no_return_eq_iff.
+  Qed.
+
+  Lemma find_state_change_first_eq (pred : V) start end_ :
+    start < end_ -> get start = pred -> get end_ <> pred -> no_return_eq start end_ ->
+    exists l, find_state_change eqb get end_ start pred = Some (l, get l) /\
+              start < l <= end_ /\ get l <> pred /\ forall m, start <= m < l -> get m = pred.
+  Proof.
+    intros Hlt Hs He Hnr.
+    destruct (find_state_change_first eqb eq_refl' eq_sym' eq_trans' get pred start end_ Hlt)
+      as (l & H1 & H2 & H3 & H4).
+    - now apply eqb_spec.
+    - now apply eqb_false_iff.
+    - now apply no_return_eq_iff.
+    - exists l. split; [exact H1|]. split; [exact H2|]. split; [now apply eqb_false_iff|].
+      intros m Hm. apply eqb_spec. now apply H4.
+  Qed.
+
+  Lemma find_state_change_a_change_eq (pred : V) start end_ :
+    start < end_ -> get start = pred -> get end_ <> pred ->
+    exists l, find_state_change eqb get end_ start pred = Some (l, get l) /\
+              start < l <= end_ /\ get (l - 1) = pred /\ get l <> pred.
+  Proof.
+    intros Hlt Hs He.
+    destruct (find_state_change_a_change eqb eq_refl' eq_sym' eq_trans' get pred start end_ Hlt) as (l & H1 & H2 & H3 & H4).
+    - now apply eqb_spec.
+    - now apply eqb_false_iff.
+    - exists l. split; [exact H1|]. split; [exact H2|]. split; [now apply eqb_spec | now apply eqb_false_iff].
+  Qed.
+
+  Lemma find_state_changes_sound_eq head last step : 1 <= step -> last <= head ->
+    exists r, find_state_changes eqb get head last step = Some r /\
+              (forall l v, In (l, v) r -> last < l <= head /\ v = get l /\ get l <> get (l - 1)) /\
+              StronglySorted Z.lt (map fst r).
+  Proof.
+    intros Hs Hle.
+    destruct (find_state_changes_sound eqb eq_refl' eq_sym' eq_trans' get head last step Hs Hle) as (r & Hr & Hg1 & Hg2).
+    exists r. split; [exact Hr|]. split; [|exact Hg2].
+    intros l v HIn. destruct (Hg1 l v HIn) as (? & ? & ?). split; [assumption|]. split; [assumption|].
+    now apply eqb_false_iff.
+  Qed.
+End Equality.
